@@ -687,8 +687,10 @@ def run_case(case, tape, ctx):
         if kind == 'cmdperiod':
             # clears every clock's queue and stops the (non permanent)
             # TempoClocks: nothing is pending any more when it returns
-            live = [cn for cn in clocks if cn not in m.stopping]
             with main._main_lock:
+                # (read under the lock: another thread's CmdPeriod may have
+                # stopped a TempoClock while this one waited for it)
+                live = [cn for cn in clocks if cn not in m.stopping]
                 m.in_clear[me] = '*'
                 try:
                     sac.CmdPeriod.run()
